@@ -37,7 +37,7 @@ CLAIMS = {
         "length-prefixed strings) reproduces exactly the parts (decode(encode x) = x), leave the rest of the buffer untouched, refuse "
         "sections over 65,535 bytes / more than 65,535 tags, ids, authors, kinds / events over u32, return an error for every too-small "
         "buffer, and never panic. Correspondence: constructors and all accessors on the real values vs the model, on part lists around "
-        "every u16 boundary (65,535/65,536 tags, 65,531..70,000-byte strings) and buffer lengths need-8..need+8 and 0..200.",
+        "every u16 boundary (65,535/65,536 tags, 65,531..70,000-byte strings) and buffer lengths need-8..need+8 and 0..200. Integer members 0..10^30 around every power-of-two width through Event::from_json (the value or an error, never another value); the same parts through from_parts and through a JSON text give byte-identical filters (lists with repeated elements included); event_layout_from_source / utf8_constants_from_source tie writer, readers and the UTF-8 length classes to the source.",
    note=PROOF_NOTE + "The JSON constructors are decided under C01/C07/C03 (parseEvent_wf: a successful parse wrote the encoding of a sized event).",
    technique="Lean 4 proof (layout lemmas: decode-after-encode by induction over tags/strings) + differential correspondence with a direct oracle on accessor values",
    design="6/C19"),
@@ -51,7 +51,7 @@ CLAIMS = {
         "a release build: no panic/abort/hang, guard bytes intact, consumed <= input, all accessors/serializers total on every Ok, over every prefix "
         "of valid texts, single-byte corruptions incl. bytes >= 0x80, texts on which the skipping pass and the decoding pass disagree about where a string ends "
         "(UTF-8 lead byte before a closing quote), NIP-45 count filters with every byte class at the probed position, deep nesting to 200,000, 400-digit numbers, "
-        "every buffer length.",
+        "every buffer length. Every \\uXXXX class (first, last and inner code point of each UTF-8 length) as the last thing written with 0..5 bytes of room through json_unescape and Tags::from_json, guard bytes checked; parser_bounds_from_source / unescape_hex_table_from_source tie the nesting bound, the 52-slot table and the hex table to the source.",
    note=PROOF_NOTE + "Stack exhaustion depends on the platform stack size (the worker exhibits aborts; the model bounds depth). Addr::try_from_bytes is modelled (parseAddr, used by the deletion model) and compared on valid, malformed and mutated inputs; it has no theorem of its own.",
    technique="Lean 4 proof (totality by induction on fuel/structure; invariant over the member loop) + direct no-panic/guard-byte oracle in two build modes + differential correspondence",
    design="6/C03"),
@@ -68,7 +68,7 @@ CLAIMS = {
         "the event's value (incl. content before tags: skipped, then read once the tags are in place). The grammar is given as inductive relations (JT, TagsText, "
         "Spells) and read_tags_array (both passes), json_unescape, burn_value/array/object/string are proved to read every text of it. Correspondence + direct oracle: "
         "CST-generated texts, Python json as the independent parser on text[:consumed], implementation vs model on whole buffers; all 5040 orders in the thorough tier; "
-        "exhaustive \\uXXXX sweep.",
+        "exhaustive \\uXXXX sweep. Fourth session: every accepted valid text is parsed again into a buffer of EXACTLY its binary size (+1..3); a stream of id / pubkey / sig strings of the right byte length that alias hex digits only when bits are masked off (U+00B0..B9, bytes with bit 7 set, neighbours of the digit and letter ranges) must be refused, and an accepted text that is valid JSON with every member once but denotes no event is a violation; hex_table_from_source ties the hex decoding to the source table on all 256 byte values.",
    note=PROOF_NOTE + "Outside the theorems, decided by correspondence only: upper-case hex in id/pubkey/sig, integer members written with fraction or exponent, unknown values nested deeper than 64 (refused by the code: depth limit of the C03 repair). Duplicate known keys / escaped spellings of known keys are outside the soundness clause (RFC 8259 s.4).",
    technique="Lean 4 proof (member-loop invariant over any member order with unknown members; inductive JSON grammars for skipped values, tags arrays and string spellings; two-pass tag reader and unescaper lemmas) + differential correspondence with Python json as independent parser",
    design="6/C01"),
@@ -82,7 +82,7 @@ CLAIMS = {
         "its text (with any trailing input, into any sufficient buffer with any prior contents) consumes exactly the text and yields exactly the bytes of "
         "from_parts, whose accessors return the original event; underneath json_unescape(json_escape s) = s for every UTF-8 s (unescape_escape_id), so "
         "escaping is injective. Correspondence + direct oracle: from_parts -> as_json -> Python json (same seven "
-        "values) -> from_json into dirty buffers, plus 4 alternative renderings per event, all byte-identical to from_parts; ==, Hash and the owned event agree (EQL).",
+        "values) -> from_json into dirty buffers, plus 4 alternative renderings per event, all byte-identical to from_parts; ==, Hash and the owned event agree (EQL). event_layout_from_source / escape_constants_from_source / safe_char_from_source: the writer of Event::from_parts (translated statement by statement), the accessor offsets, the escaper's named characters and is_safe_char as the source spells them on this run are the model's.",
    note=PROOF_NOTE + "The theorems are about the model's as_json/from_json; that the Rust functions are these is the correspondence (incl. the exhaustive \\uXXXX sweep). That == and Hash are byte-wise is checked on the real values only (EQL request). Non-UTF-8 strings (constructible only with from_parts) are outside round_trip: as_json refuses or mangles them, as the property allows.",
    technique="Lean 4 proof (parse well-formedness + decode-after-encode; completeness over inductive JSON grammars) + differential correspondence with Python json",
    design="6/C02"),
@@ -142,7 +142,7 @@ CLAIMS = {
         "events (permutation), answers every lookup by id identically, re-establishes the invariant, holds only the retrievable events in the new map "
         "and uses at most 8 + sum(len+7) bytes. Direct model-free oracle: battery before = battery after reopen/rebuild at every position of histories with "
         "removed/replaced/deleted/ephemeral/failed leftovers, long and binary identifiers, repeated rebuilds, extra tables; exact event-space accounting; both "
-        "backup files exist.",
+        "backup files exist. Every fifth history starts in a pre-sized event.map (PRE); episode 'several chunks of live events, rebuild, keep storing on the same handle until the compacted map grows'; spec_rebuild_preserves: on the abstract store a rebuild keeps exactly the retrievable events and both marker tables.",
    note=PROOF_NOTE + 'Modelled, not verified: LMDB (ordered maps, snapshot reads inside a write transaction, atomic commit), the mmap-append event map; the seven index tables are modelled as functions of the set of indexed events with range scans as filter+key-order sort. ' + "Invariance of find_events answers under rebuild is established by the battery oracle (query results before = after), not by a theorem.",
    technique="Lean 4 proof (permutation/invariant lemmas) + model-free before/after battery oracle + differential correspondence",
    design="6/C16"),
@@ -152,7 +152,7 @@ CLAIMS = {
         "entries and touches nothing else; storing an ephemeral event succeeds and leaves the retrievable set unchanged. In every reachable state vanish removes exactly the events authored by the key plus the "
         "kind-1059 events with a p tag whose value is the key's lower-case hex, and nothing else (vanish_exact, from the completeness of the author and "
         "kind+tag plans). Correspondence + the abstract specification after every step (gift wraps naming the author first / later / as a non-first value / "
-        "in upper case; keys with gift wraps but no events of their own). Gift wraps whose p value is NOT the key's hex but shares its padded index key or a prefix with it (trailing NULs up to and beyond 182 bytes, one digit short/long, leading space) must survive vanish; episodes wrap + near-miss wraps + own event + vanish.",
+        "in upper case; keys with gift wraps but no events of their own). Gift wraps whose p value is NOT the key's hex but shares its padded index key or a prefix with it (trailing NULs up to and beyond 182 bytes, one digit short/long, leading space) must survive vanish; episodes wrap + near-miss wraps + own event + vanish. Removal races: remove_event / vanish paused at each of its points while another thread looks the very event up by id; after the removal returned the event is gone by every path, unmarked and storable again. spec_remove_vanish_exact: the statement on the abstract store.",
    note=PROOF_NOTE + 'Modelled, not verified: LMDB (ordered maps, snapshot reads inside a write transaction, atomic commit), the mmap-append event map; the seven index tables are modelled as functions of the set of indexed events with range scans as filter+key-order sort. ' + "vanish_exact assumes fewer retrievable events than u32::MAX (the two internal queries run without a limit).",
    technique="Lean 4 proof + differential correspondence with the abstract specification as direct oracle",
    design="6/C18"),
@@ -168,7 +168,7 @@ CLAIMS = {
         "tag_index_range_bounds, time/author/author_kind_index_scan): the model's range scans are what a bytewise-ordered table returns between the bounds the *_iter functions "
         "build over the keys key_*_index builds (prefix, big-endian u64::MAX - created_at, id; both bounds inclusive, all-zero and all-ones ids included). Correspondence: ~40 "
         "filters after every step of every history on the real store vs the model (exact answer) and vs ValidAnswer of the abstract specification; the keys the six index tables "
-        "really hold, read back from LMDB in its iteration order through a verif hook, equal the model's keys byte for byte after every step. THE TAG TABLES ROW BY ROW (tag_index_scan, author_tag_index_scan, kind_tag_index_scan, tag_rows_are_dumped_keys): a tag table holds one row per distinct (letter, 182-byte padded value) of each event; a range read over those rows with the bounds tc_iter / atc_iter / ktc_iter compute is exactly the model's scan (each event once, however many of its tags fall on the key), and the rows are the keys the hook dumps.",
+        "really hold, read back from LMDB in its iteration order through a verif hook, equal the model's keys byte for byte after every step. THE TAG TABLES ROW BY ROW (tag_index_scan, author_tag_index_scan, kind_tag_index_scan, tag_rows_are_dumped_keys): a tag table holds one row per distinct (letter, 182-byte padded value) of each event; a range read over those rows with the bounds tc_iter / atc_iter / ktc_iter compute is exactly the model's scan (each event once, however many of its tags fall on the key), and the rows are the keys the hook dumps. keys_from_source / iter_bounds_from_source / scrape_gate_from_source: the six key builders, the two ends and inclusiveness of every range read, and the scraping allowance, translated from lmdb/mod.rs and lib.rs on every run, are the model's.",
    note=PROOF_NOTE + 'Modelled, not verified: LMDB (ordered maps, snapshot reads inside a write transaction, atomic commit), the mmap-append event map; the seven index tables are modelled as functions of the set of indexed events with range scans as filter+key-order sort. ' + "Filters with multi-byte tag names (constructible only with from_parts) are outside the completeness theorems (the tag plans probe by first byte only) and are covered by the correspondence. Of LMDB's ordering only 'a range is iterated in bytewise key order' is assumed (and observed on every step); the list-level scan equality is proved for the time, author and author-kind tables, the range/order facts at key level for the three tag tables.",
    technique="Lean 4 proof (loop invariant over all seven query plans) + differential correspondence + ValidAnswer oracle from the abstract specification",
    design="6/C05"),
@@ -178,7 +178,7 @@ CLAIMS = {
         "deleted/duplicate) and changes nothing; a stored non-deletion event leaves every event of a different address (differing in author, kind, any byte "
         "or the length of d) and every address-less event in place; the kind classes are exactly the NIP-01 ranges for every kind. Correspondence: histories "
         "concentrated on one or two addresses and their neighbours (kind +-1 across every boundary, d values sharing 182-byte prefixes, NUL-padded, two d "
-        "tags), all 65,536 kinds exhaustively through the classifiers.",
+        "tags), all 65,536 kinds exhaustively through the classifiers. Versions dated after the relay's clock (created_at comes from the author) in address families; classification_from_source: the three kind predicates translated from kind.rs on every run equal the model's for every kind (by arithmetic); spec_one_per_address: the invariant on the abstract store, by refinement.",
    note=PROOF_NOTE + 'Modelled, not verified: LMDB (ordered maps, snapshot reads inside a write transaction, atomic commit), the mmap-append event map; the seven index tables are modelled as functions of the set of indexed events with range scans as filter+key-order sort. ' + "An event of a parameterized kind without a d value has no address (the code's reading; NIP-01's 'missing = empty' is noted in DESIGN.md).",
    technique="Lean 4 proof (address-uniqueness invariant by induction over histories) + differential correspondence + exhaustive kind enumeration",
    design="6/C09"),
@@ -210,7 +210,7 @@ CLAIMS = {
         "satisfy - id, author, author+kind, each tag value alone / with author / with kind, a time window - whichever of the seven plans serves it "
         "(self_findable, from find_events completeness); the tag-index entry count is a function of what remains indexed and is zero when nothing is. The four "
         "entry counts = number of retrievable events are decided by correspondence after every step (stats on the real store), as is the self-filter family "
-        "per event seen vs the specification.",
+        "per event seen vs the specification. keys_from_source / index_padding_from_source: the key builders of all six query indexes as lmdb/mod.rs spells them on this run produce the model's byte keys.",
    note=PROOF_NOTE + 'Modelled, not verified: LMDB (ordered maps, snapshot reads inside a write transaction, atomic commit), the mmap-append event map; the seven index tables are modelled as functions of the set of indexed events with range scans as filter+key-order sort. ' + "PARTIAL: the model derives all index tables from the set of indexed events; that the real index/deindex pairs keep the tables in that relation is exactly what the per-step stats and self-filter comparison checks, not a theorem about the Rust.",
    technique="Lean 4 proof (corollaries of the find_events loop invariant) + differential correspondence on entry counts and the self-filter family",
    design="6/C17"),
@@ -225,7 +225,7 @@ CLAIMS = {
         "Fault enumeration on the real code through the verif hooks: for each step of each history and each named point "
         "and occurrence a child dies there by _exit (incl. mid-copy and during file growth), the parent reopens, compares the battery with the model's "
         "before/after states, and continues the history (after a kill in the growth path long enough for two more growth rounds); the (file length, end) pair found after the reopen "
-        "must be one of the model's durable states; the points hit per call are compared with the model's micro-step list. A killed vanish is judged exactly: the ids gone after the reopen are removed one by one from an uninterrupted real store, and the WHOLE battery (entry counts of all tables, author/kind/tag queries, address lookups) and the continuation must equal that reference; every history ends with a vanish of a key that has several targets.",
+        "must be one of the model's durable states; the points hit per call are compared with the model's micro-step list. A killed vanish is judged exactly: the ids gone after the reopen are removed one by one from an uninterrupted real store, and the WHOLE battery (entry counts of all tables, author/kind/tag queries, address lookups) and the continuation must equal that reference; every history ends with a vanish of a key that has several targets. Every history contains an event ending on the last byte of the map file, and the call after it is interrupted (reopen of an exactly full map).",
    note=PROOF_NOTE + 'Modelled, not verified: LMDB (ordered maps, snapshot reads inside a write transaction, atomic commit), the mmap-append event map; the seven index tables are modelled as functions of the set of indexed events with range scans as filter+key-order sort. ' + "PARTIAL: process kill only (page cache survives); LMDB's commit atomicity, the kernel and the absence of compiler/CPU reordering across the SeqCst fence are trusted; torn 8-byte marker stores are not modelled.",
    technique="Lean 4 proof (invariant over micro-step prefixes) + fault enumeration at named kill points with reopen-and-compare",
    design="6/C13"),
@@ -239,7 +239,7 @@ CLAIMS = {
         "names); replies, blocking behaviour and the battery afterwards must equal the serial order run on the real store, which in turn is compared with the "
         "model's serial execution; SPANNING QUERIES: a query paused inside the caller's screening callback at the first event it examines while two further events are stored (one in "
         "the index range it has entered, one in a range it has not reached), for every multi-range plan - its answer must be the answer of one committed state "
-        "(before, between, after), never the later store without the earlier; plus 16-thread stress runs judged by 'some serial order explains it' invariants.",
+        "(before, between, after), never the later store without the earlier; plus 16-thread stress runs judged by 'some serial order explains it' invariants. Growth-step races (shared with C04/C15): a store that must grow the map paused at every point of the append/growth path while another thread stores chunk-sized events; whatever returned Ok reads back whole.",
    note=PROOF_NOTE + 'Modelled, not verified: LMDB (ordered maps, snapshot reads inside a write transaction, atomic commit), the mmap-append event map; the seven index tables are modelled as functions of the set of indexed events with range scans as filter+key-order sort. ' + "PARTIAL: the model has the lock, snapshots and atomic commit by construction; LMDB's writer mutex, NO_TLS read transactions, the RwLock/Mutex in mmap-append and the memory model are trusted; a reordering bug inside one yield-free region is out of reach. For ephemeral kinds every submission succeeds (they are never indexed): 'exactly one succeeds' is stated for non-ephemeral events.",
    technique="Lean 4 proof (induction over schedules of a lock-based small-step model) + forced-schedule correspondence through yield points + stress",
    design="6/C14"),
@@ -249,7 +249,7 @@ CLAIMS = {
         "step leaves an earlier reference dangling (growth_may_move_witness): the property as stated is FALSE of the code. Check on the real store: addresses and "
         "bytes of all earlier events re-read after every store across growth steps; an address change at a growth step is the recorded KNOWN FINDING (printed, "
         "exit 0); changed bytes or an address change without growth are violations. Forced two-thread schedules: an event stored while another thread's store "
-        "fails (duplicate / invalid deletion / replaced) at every yield point, both directions, must read back whole by id and offset before and after a further store. written_region_survives_store: in the event-map model no store (padding, growth rounds, append) shortens the file or moves the end marker backwards, so the written region [8, end) stays inside the file.",
+        "fails (duplicate / invalid deletion / replaced) at every yield point, both directions, must read back whole by id and offset before and after a further store. written_region_survives_store: in the event-map model no store (padding, growth rounds, append) shortens the file or moves the end marker backwards, so the written region [8, end) stays inside the file. Stores that start in a pre-sized event.map (worker request PRE: several chunks, odd lengths) so that the first growth comes late; growth-step races shared with C04/C14.",
    note=PROOF_NOTE + 'Modelled, not verified: LMDB (ordered maps, snapshot reads inside a write transaction, atomic commit), the mmap-append event map; the seven index tables are modelled as functions of the set of indexed events with range scans as filter+key-order sort. ' + "PARTIAL / open finding: where the OS places the new mapping is not determined by the program; no small safe repair exists inside pocket (mmap-append maps anew and unmaps the old mapping).",
    technique="Lean 4 proof (validity-iff-base-unchanged, negation witness) + address/byte comparison on the real store with known-findings matching",
    design="6/C15"),
